@@ -26,7 +26,8 @@ import time
 
 VERIF = os.path.dirname(os.path.dirname(os.path.abspath(__file__)))
 REPO = os.environ.get("VERIF_REPO", "/repo")
-BUILD = os.path.join(VERIF, ".build")
+BUILD = os.environ.get("VERIF_BUILD", os.path.join(VERIF, ".build"))  # override: isolated lane for self-tests on scratch trees
+OUT = os.environ.get("VERIF_OUT", VERIF)  # where evidence/ and replays/ go (override only for self-tests on scratch trees)
 SYMX_DIR = os.path.join(VERIF, "symx")
 KANI_DIR = os.path.join(VERIF, "kani")
 # a scratch tree (VERIF_REPO) gets its own target directory so that concurrent runs cannot swap binaries
@@ -598,7 +599,7 @@ def symx_report(prop, tier, seed, index, results, feas, meta, known):
     violations, known_hits, nonrepro = [], [], []
     seen_keys = {}
     per_sc, skipped = {}, []  # replay at most 6 refuted goals per scenario once one of them has reproduced
-    rdir = os.path.join(VERIF, "replays", prop)
+    rdir = os.path.join(OUT, "replays", prop)
     for name, pth, g, r in refuted:
         key = "%s::%s" % (name, g["name"])
         if key in seen_keys:
@@ -849,8 +850,8 @@ def main():
         "wall_s": round(wall, 2),
         "violations": len(violations),
     }
-    os.makedirs(os.path.join(VERIF, "evidence"), exist_ok=True)
-    json.dump(ev, open(os.path.join(VERIF, "evidence", "%s.json" % prop), "w"), indent=1, default=str)
+    os.makedirs(os.path.join(OUT, "evidence"), exist_ok=True)
+    json.dump(ev, open(os.path.join(OUT, "evidence", "%s.json" % prop), "w"), indent=1, default=str)
 
     # ---- report ----
     log("%s tier=%s seed=%d: symx %d goals discharged / %d undecided / %d paths (%d infeasible); kani %d/%d harnesses; solver %.1fs wall %.1fs" % (
